@@ -1,15 +1,15 @@
 #!/bin/sh
-# seedstore.sh <id> : move round-2 deliverables /tmp/seed2-<id>-out/{patch,meta,demo}{1,2} to seeded/<id>/ as 3,4
+# seedstore.sh <id> : move round-2 deliverables /tmp/seed${ROUND:-2}-<id>-out/{patch,meta,demo}{1,2} to seeded/<id>/ as 3,4
 id=$1
-src=/tmp/seed2-$id-out
+src=/tmp/seed${ROUND:-2}-$id-out
 dst=/verif/seeded/$id
 mkdir -p $dst
 for k in 1 2; do
-  n=$((k+2))
+  n=$((k+${OFFSET:-2}))
   [ -f $src/patch$k.diff ] && cp $src/patch$k.diff $dst/patch$n.diff
   [ -f $src/meta$k.json ] && cp $src/meta$k.json $dst/meta$n.json
   [ -d $src/demo$k ] && rm -rf $dst/demo$n && cp -r $src/demo$k $dst/demo$n
 done
-git -C /repo worktree remove --force /tmp/seed2-$id 2>/dev/null
+git -C /repo worktree remove --force /tmp/seed${ROUND:-2}-$id 2>/dev/null
 rm -rf $src
 ls $dst | tr '\n' ' '
